@@ -132,6 +132,36 @@ TEMPLATES["pair"] = dict(
 )
 
 
+# a third shape: `self` escapes from the constructor (it registers itself in a list passed in, and links itself to a partner), so the
+# reference stored during construction and the reference the constructor call returns must be the same object
+MEM = ("class", "Mem", [("n", "int"), ("partner", "Self?")],
+       ([("n", "int"), ("buddy", "Self?")],
+        [("setfield", V("self"), "n", V("n")), ("setfield", V("self"), "partner", ("nil",)),
+         ("if", ("bin", "!=", V("buddy"), ("nil",)), [asg("bd", ("get", V("buddy"))), ("setfield", V("bd"), "partner", V("self")),
+                                                      ("setfield", V("self"), "partner", V("bd"))], None)]),
+       [("bump", [], None, [("if", ("bin", "<", SF("n"), I(3)), [("setfield", V("self"), "n", ("bin", "+", SF("n"), I(1)))], None)]),
+        ("partner_n", [], "int", [("if", ("bin", "==", SF("partner"), ("nil",)), [("return", ("int", -1))], None),
+                                  asg("pp", ("get", SF("partner"))), ("return", F("pp", "n"))]),
+        ("partner_is", [("o", "Self")], "bool", [("if", ("bin", "==", SF("partner"), ("nil",)), [("return", ("bool", False))], None),
+                                                 asg("pp", ("get", SF("partner"))), ("return", ("is", V("pp"), V("o")))]),
+        ("bump_partner", [], None, [("if", ("bin", "!=", SF("partner"), ("nil",)), [asg("pp", ("get", SF("partner"))), ("expr", M("pp", "bump"))], None)])])
+_NONE = asg("nobody", ("nil",), "Mem?")
+TEMPLATES["escape"] = dict(
+    prelude=[MEM, _NONE, asg("a", ("new", "Mem", [I(0), V("nobody")])), asg("b", ("new", "Mem", [I(1), V("nobody")])), asg("c", V("a"))],
+    ops=[asg("a", ("new", "Mem", [I(2), V("nobody")])), asg("b", ("new", "Mem", [I(0), V("nobody")])),
+         lambda k: [asg(f"opt{k}", V("a"), "Mem?"), asg("b", ("new", "Mem", [I(1), V(f"opt{k}")]))],
+         lambda k: [asg(f"opt{k}", V("b"), "Mem?"), asg("a", ("new", "Mem", [I(1), V(f"opt{k}")]))],
+         lambda k: [asg(f"opt{k}", V("c"), "Mem?"), asg("c", ("new", "Mem", [I(0), V(f"opt{k}")]))],
+         ("expr", M("a", "bump")), ("expr", M("b", "bump")), ("expr", M("a", "bump_partner")), ("expr", M("c", "bump_partner")),
+         asg("b", V("a")), asg("c", V("b")), ("print", M("a", "partner_n")), ("print", ("is", V("a"), V("b")))],
+    observers=[F("a", "n"), F("b", "n"), F("c", "n"), ("is", V("a"), V("b")), ("is", V("a"), V("c")), ("is", V("b"), V("c")),
+               M("a", "partner_n"), M("b", "partner_n"), M("c", "partner_n"),
+               M("a", "partner_is", V("a")), M("a", "partner_is", V("b")), M("a", "partner_is", V("c")),
+               M("b", "partner_is", V("a")), M("b", "partner_is", V("b")), M("b", "partner_is", V("c")),
+               M("c", "partner_is", V("a")), M("c", "partner_is", V("b")), M("c", "partner_is", V("c"))],
+)
+
+
 class ObjectModel(ClosureModel):
     name = "objects"
     T = TEMPLATES
@@ -148,7 +178,8 @@ class C08(EHistCheck):
     rule = ("breadth-first search over histories of constructions, aliasings, passing to / returning from functions, storing in / reading "
             "from a list, method calls (incl. a method returning Self, chained calls - also through methods declared -> Self that return another object -, a method calling another method), field reads and "
             "writes (scalar, list, optional-class and class fields; a list field is shared with another object's, replaced by a fresh empty list and by a clone of itself; every op-assignment operator through a field path) and `is` tests on two class graphs (Node/Leaf with a self-referential "
-            "optional link and a shared sub-object; Pair/Leaf with object-valued constructor parameters, swapping and fresh sub-objects); "
+            "optional link and a shared sub-object; Pair/Leaf with object-valued constructor parameters, swapping and fresh sub-objects; Mem, whose constructor "
+            "lets `self` escape into the field of a partner object passed in); "
             "model = reference interpreter with records of cells; states de-duplicated on the values of observer expressions that expose "
             "every field, every identity relation between the named references and the link structure; every transition replayed on the real CLI.")
     assumptions = ["objects are never printed (addresses); `==` on objects is rejected by the compiler and is not in the alphabet"]
